@@ -553,4 +553,232 @@ theorem const_dict_get_strs (kvs : List (PyVal × PyVal)) (t : List (Str × Str)
     · have : ¬ a = k := fun e' => e e'.symm
       simp [e, this, ih]
 
+/-! ## one iteration, the loop, the tail -/
+
+/-- every header value is a `str` (no `email.header.Header` objects) -/
+def StrOnly (doc : Doc) : Prop := ∀ h ∈ doc.hdrs, ∃ s, h.2 = .str s
+
+/-- what `parseEmail` does after the header loop -/
+def parseTail (doc : Doc) (acc : Dict × Unparsed) : Except Str (Dict × Unparsed) :=
+  match doc.payload with
+  | .other => .error (ofString "AssertionError")
+  | .str s => .ok (mergeBody acc s)
+  | .bytes b =>
+    match utf8Decode b with
+    | some s => .ok (mergeBody acc s)
+    | none =>
+      match aget descriptionKey acc.1 with
+      | some v =>
+        let hdr : Str := match v with | .str s => s | _ => []
+        .ok (adel descriptionKey acc.1, extendDescription acc.2 [.str hdr, .bytes b])
+      | none => .ok (acc.1, extendDescription acc.2 [.bytes b])
+
+theorem parseEmail_strOnly (doc : Doc) (h : StrOnly doc) (order : List Str) :
+    parseEmail doc order = parseTail doc (headerLoop doc order) := by
+  unfold parseEmail parseTail
+  split
+  · rename_i c hc
+    obtain ⟨x, hx, hxc⟩ := List.exists_of_findSome?_eq_some hc
+    obtain ⟨s, hs⟩ := h x hx
+    simp [hs] at hxc
+  · rfl
+
+/-- the body is empty (or is not a `str` / `bytes` object at all) -/
+def BodyEmpty (doc : Doc) : Prop := doc.payload = .str [] ∨ doc.payload = .bytes [] ∨ doc.payload = .other
+
+theorem catches_value_assert : catches "ValueError" (toStringLossy (ofString "AssertionError")) = false := by decide
+
+theorem x9_isinst_str3 (t : Str) : isinstance (.str t) ["Header", "HeaderErr", "str"] = true := by rfl
+theorem x9_isinst_str2 (t : Str) : isinstance (.str t) ["Header", "HeaderErr"] = false := by rfl
+
+theorem getAll_strOnly (doc : Doc) (h : StrOnly doc) (ln : Str) : ∀ hv ∈ getAll doc ln, ∃ t, hv = .str t := by
+  intro hv hm
+  simp only [getAll, List.mem_map, List.mem_filter] at hm
+  obtain ⟨x, ⟨hx, _⟩, rfl⟩ := hm
+  exact h x hx
+
+/-- `Email.classify` on the decoded values and the `valid_encoding` flag -/
+def classifyV (value : List Str) (ok : Bool) (lname : Str) : Cls :=
+  if !ok then .unparsed value else
+  match aget lname Gen.Meta.emailToRaw with
+  | none => .unparsed value
+  | some rawName =>
+    if Gen.Meta.stringFields.contains rawName && value.length == 1 then .raw rawName (.str (value.headD []))
+    else if Gen.Meta.listFields.contains rawName then .raw rawName (.list value)
+    else if rawName == keywordsKey && value.length == 1 then .raw rawName (.list (parseKeywords (value.headD [])))
+    else if rawName == projectUrlsKey then
+      match parseProjectUrls value [] with
+      | some d => .raw rawName (.dict d)
+      | none => .unparsed value
+    else .unparsed value
+
+theorem classify_eq (doc : Doc) (ln : Str) :
+    classify doc ln = classifyV ((getAll doc ln).map fun h => (decodeVal h).1) ((getAll doc ln).all fun h => (decodeVal h).2) ln := by
+  simp only [classify, classifyV, List.map_map, List.all_map, Function.comp_def]
+  rfl
+
+theorem encUList_strs (vals : List Str) : encUList (vals.map .str) = .list (vals.map .str) := by
+  simp [encUList, List.map_map, Function.comp_def, encUVal]
+
+theorem dict_setitem_str (kvs : List (PyVal × PyVal)) (k : Str) (v : PyVal) :
+    dict_setitem (.dict kvs) (.str k) v = .ok (.dict (dictSet kvs (.str k) v)) := by rfl
+
+theorem unp_set {u : List (PyVal × PyVal)} {a : Unparsed} (h : UnparsedRel u a) (k : Str) (vals : List Str) :
+    UnparsedRel (dictSet u (.str k) (.list (vals.map .str))) (aset k (vals.map .str) a) := by
+  have := ARel_set h k (vals.map UVal.str)
+  rwa [encUList_strs] at this
+
+theorem raw_set {r : List (PyVal × PyVal)} {a : Dict} (h : DictRel r a) (k : Str) (v : Val) :
+    DictRel (dictSet r (.str k) (encVal v)) (aset k v a) := ARel_set h k v
+
+theorem int_len_one (n : Nat) : ((n : Int) == 1) = (n == 1) := by
+  rw [Bool.eq_iff_iff]; simp; omega
+theorem len2_ne (n : Nat) : (n + 1 + 1 == 1) = false := by simp
+theorem len0_ne : ((0 : Nat) == 1) = false := by decide
+theorem len1_eq : ((0 + 1 : Nat) == 1) = true := by decide
+
+theorem getitem_map_zero (v : Str) (t : List Str) : getitem (.list (List.map PyVal.str (v :: t))) (.int 0) = .ok (.str v) := by
+  simp
+
+theorem kw_key : keywordsKey = ofString "keywords" := by decide
+theorem pu_key : projectUrlsKey = ofString "project_urls" := by decide
+theorem catches_keyerror : catches "KeyError" "KeyError" = true := by decide
+
+theorem ite_bind_same {α β : Type} (c : Prop) [Decidable c] (a b : M α) (f : α → M β) :
+    (if c then a >>= f else b >>= f) = (if c then a else b) >>= f := by split <;> rfl
+
+set_option maxHeartbeats 1000000 in
+/-- **Partial** version of `parse_email = Email.parseEmail` (the restrictions are on the class of documents, nothing about the
+translated code is assumed): for `str` and for `bytes` input, every oracle `ext` that answers the parser call with a message
+presenting `doc` and answers `str.lower` on header names like the ASCII `lowerStr`,
+
+* `StrOnly doc`: every header value is a `str` (no `email.header.Header` objects, hence no `decode_header` error), and
+* `BodyEmpty doc`: the body is empty or not a `str`/`bytes` object (the description/body merge is not exercised),
+
+the translated function returns dicts that agree look-up by look-up with the model's result for the visiting order
+`orderOf doc` (a permutation of the distinct header names, `orderOf_perm`), or raises the same class. -/
+theorem parse_email_eq_model_partial (ext : PyRt.Oracle) (data m : PyVal) (doc : Doc) (isStr : Bool)
+    (hdata : if isStr then ∃ s, data = .str s else ∃ b, data = PyElf.ofBytes b)
+    (hext : ext (if isStr then "email.parser.Parser(policy=email.policy.compat32).parsestr(_, headersonly=True)"
+      else "email.parser.BytesParser(policy=email.policy.compat32).parsebytes(_, headersonly=True)") [data] = .ok m)
+    (hm : MsgRel m doc isStr)
+    (hlower : ∀ s, ext "str.lower" [.str s] = .ok (.str (lowerStr s)))
+    (hstr : StrOnly doc) (hbody : BodyEmpty doc) :
+    match parseEmail doc (orderOf doc) with
+    | .ok (d, u) => ∃ r un, Gen.PySrc.parse_email ext data = .ok (.tuple [.dict r, .dict un]) ∧ DictRel r d ∧ UnparsedRel un u
+    | .error c => Gen.PySrc.parse_email ext data = .error (toStringLossy c) := by
+  obtain ⟨fs, rfl, hh, hrun⟩ := _get_payload__io_eq_model m data doc isStr hm hdata
+  have hinst : isinstance data ["str"] = isStr := by
+    cases isStr with
+    | true => obtain ⟨s, rfl⟩ := hdata; rfl
+    | false => obtain ⟨b, rfl⟩ := hdata; rfl
+  have hparse : (if isStr = true then
+        ext_call ext "email.parser.Parser(policy=email.policy.compat32).parsestr(_, headersonly=True)" [data]
+      else ext_call ext "email.parser.BytesParser(policy=email.policy.compat32).parsebytes(_, headersonly=True)" [data]) =
+      .ok (.obj "Message" fs) := by
+    cases isStr <;> simpa [ext_call] using hext
+  have hset : PyRx.set_of "frozenset" PyRx.eq_plain (.list (doc.names.map .str)) =
+      .ok (PyRx.mkSet "frozenset" ((dedupAcc [] doc.names).map .str)) := by
+    have := dedupM_strs doc.names []
+    simp only [List.map_nil] at this
+    simp only [PyRx.set_of, PyRx.setItems, iterate_list, ok_bind, this, pure_ok]
+  have hsorted : PySet.sorted_ (PyRx.mkSet "frozenset" ((dedupAcc [] doc.names).map .str)) =
+      .ok (.list ((orderOf doc).map .str)) := by
+    simp only [PyRx.setItems, PyRx.mkSet, PySet.sorted_, strsOf_strs, pure_ok, ok_bind, orderOf]
+  unfold Gen.PySrc.parse_email
+  simp only [hinst, truthy_bool, ite_bind_same, hparse, ok_bind, msg_keys_enc fs doc hh, hset, hsorted, iterate_list]
+  refine outer_forIn_bind (σ := PyVal × PyVal × PyVal × PyVal × PyVal × PyVal × PyVal × PyVal × PyVal)
+    (fun s => s.2.2.2.2.2.2.2.1) (fun s => s.2.2.2.2.2.2.2.2) _ _ doc
+    (fun x => match parseEmail doc (orderOf doc) with
+      | .ok (d, u) => ∃ r un, x = .ok (.tuple [.dict r, .dict un]) ∧ DictRel r d ∧ UnparsedRel un u
+      | .error c => x = .error (toStringLossy c)) (orderOf doc) _ ([], []) ?hstep (mem_orderOf doc)
+      ⟨[], [], rfl, rfl, ARel_nil _, ARel_nil _⟩ ?hk
+  case hstep =>
+    intro n s acc hn hs
+    obtain ⟨r, u, hr, hu, hdr, hur⟩ := hs
+    simp only [hlower, ext_call, ok_bind, msg_get_all_enc fs doc n hh, iterate_list]
+    refine inner_forIn_bind (σ := PyVal × PyVal × PyVal × PyVal) (fun s => s.1) (fun s => s.2.1) _ _ (fun hv => ∃ t, hv = .str t)
+      (fun x => ∃ s', x = .ok (.yield s') ∧ StRel _ _ s' (step doc acc n)) (getAll doc (lowerStr n)) _ ?hin
+      (getAll_strOnly doc hstr _) rfl rfl ?hk2
+    case hin =>
+      intro hv s vs ok ⟨t, ht⟩ h1 h2
+      subst ht
+      simp only [encHVal, x9_isinst_str3, x9_isinst_str2, Bool.not_true, Bool.false_eq_true, if_false, h1, list_append_list,
+        ok_bind, pure_ok]
+      exact ⟨_, rfl, by simp [decodeVal], by simp [decodeVal, h2]⟩
+    case hk2 =>
+      intro s' hval hvalid
+      simp only at hval hvalid hr hu
+      simp only [hval, hvalid, hr, hu, truthy_bool]
+      simp only [step, classify_eq]
+      generalize (getAll doc (lowerStr n)).map (fun h => (decodeVal h).1) = vals
+      generalize (getAll doc (lowerStr n)).all (fun h => (decodeVal h).2) = okAll
+      generalize lowerStr n = ln
+      cases okAll with
+      | false =>
+        simp only [classifyV, Bool.not_false, if_true, dict_setitem_str, ok_bind, pure_ok]
+        exact ⟨_, rfl, _, _, rfl, rfl, hdr, unp_set hur ln vals⟩
+      | true =>
+        simp only [Bool.not_true, Bool.false_eq_true, if_false]
+        rw [const_dict_get_strs _ Gen.Meta.emailToRaw (by rfl)]
+        simp only [classifyV, Bool.not_true, Bool.false_eq_true, if_false]
+        cases hrn : aget ln Gen.Meta.emailToRaw with
+        | none =>
+          simp only [ok_bind, isNone_none, if_true, dict_setitem_str, pure_ok]
+          exact ⟨_, rfl, _, _, rfl, rfl, hdr, unp_set hur ln vals⟩
+        | some rn =>
+          simp only [ok_bind, isNone_str, Bool.false_eq_true, if_false]
+          rw [contains_set_strs _ Gen.Meta.stringFields (by rfl), contains_set_strs _ Gen.Meta.listFields (by rfl)]
+          simp only [ok_bind, pure_ok, truthy_bool, len_list, PyRt.eq, eq_int, eq_str, kw_key, pu_key, int_len_one, List.length_map,
+            _parse_project_urls_eq_model]
+          generalize Gen.Meta.stringFields.contains rn = bsf
+          generalize Gen.Meta.listFields.contains rn = blf
+          generalize (rn == ofString "keywords") = bkw
+          generalize (rn == ofString "project_urls") = bpu
+          generalize hpu : parseProjectUrls vals [] = pu
+          rcases vals with _ | ⟨v, _ | ⟨w, t⟩⟩
+          all_goals
+            cases bsf <;> cases blf <;> cases bkw <;> cases bpu <;> cases pu
+          all_goals
+            simp only [ok_bind, err_bind, pure_ok, throw_err, truthy_bool, List.length_nil, List.length_cons, tryCatch_ok', tryCatch_err', tryCatch_ok, tryCatch_err,
+              catches_keyerror, getitem_map_zero, dict_setitem_str, Bool.false_eq_true, if_false, if_true, Bool.and_true, Bool.and_false, Bool.true_and, Bool.false_and,
+              _parse_keywords_eq_model, List.headD_cons, len2_ne, len0_ne, len1_eq]
+          all_goals
+            first
+            | exact ⟨_, rfl, _, _, rfl, rfl, hdr, unp_set hur ln _⟩
+            | exact ⟨_, rfl, _, _, rfl, rfl, raw_set hdr rn (.str _), hur⟩
+            | exact ⟨_, rfl, _, _, rfl, rfl, raw_set hdr rn (.list _), hur⟩
+            | exact ⟨_, rfl, _, _, rfl, rfl, raw_set hdr rn (.dict _), hur⟩
+            | skip
+  case hk =>
+    intro s' hs'
+    obtain ⟨r, u, hr, hu, hdr, hur⟩ := hs'
+    simp only at hr hu
+    simp only [hrun, hr, hu, parseEmail_strOnly doc hstr, parseTail]
+    change DictRel r (headerLoop doc (orderOf doc)).1 at hdr
+    change UnparsedRel u (headerLoop doc (orderOf doc)).2 at hur
+    generalize headerLoop doc (orderOf doc) = acc at hdr hur ⊢
+    rcases hbody with hb | hb | hb
+    · simp only [hb, getPayload, mergeBody, truthy_str, List.isEmpty_nil, Bool.not_true, Bool.false_eq_true, if_false, if_true, pure_ok]
+      exact ⟨r, u, rfl, hdr, hur⟩
+    · have hd : utf8Decode [] = some [] := by rfl
+      simp only [hb, getPayload, hd, mergeBody, truthy_str, List.isEmpty_nil, Bool.not_true, Bool.false_eq_true, if_false, if_true, pure_ok]
+      exact ⟨r, u, rfl, hdr, hur⟩
+    · simp only [hb, getPayload, catches_value_assert, Bool.false_eq_true, if_false, throw_err, err_bind]
+
+/-- the hypotheses of `parse_email_eq_model_partial` can be met -/
+example : ∃ (ext : PyRt.Oracle) (data m : PyVal) (doc : Doc),
+    (∃ s, data = .str s) ∧
+    ext "email.parser.Parser(policy=email.policy.compat32).parsestr(_, headersonly=True)" [data] = .ok m ∧
+    MsgRel m doc true ∧ (∀ s, ext "str.lower" [.str s] = .ok (.str (lowerStr s))) ∧ StrOnly doc ∧ BodyEmpty doc ∧ doc.hdrs ≠ [] := by
+  let doc : Doc := ⟨[(ofString "Name", .str (ofString "foo"))], .str []⟩
+  let m : PyVal := .obj "Message" [("headers", .list (encHdrs doc)), ("payload", .str [])]
+  refine ⟨fun k args => if k = "str.lower" then (match args with | [.str s] => .ok (.str (lowerStr s)) | _ => .error "TypeError") else .ok m,
+    .str [], m, doc, ⟨[], rfl⟩, by simp, ⟨_, rfl, by simp [m], ?_⟩, fun s => by simp, ?_, .inl rfl, by simp [doc]⟩
+  · simp only [if_true]
+    exact ⟨.str [], by simp [m], .inl ⟨[], rfl, rfl⟩⟩
+  · intro h hh
+    simp only [doc, List.mem_singleton] at hh
+    exact ⟨ofString "foo", by rw [hh]⟩
+
 end Src
